@@ -30,12 +30,15 @@ EXTENDS Naturals, Sequences, FiniteSets, TLC
 
 CONSTANTS Clients,     \* set of client thread names
           Reqs,        \* Reqs[t] : sequence of request ids thread t issues one after the other
-          Bg,          \* name of the background serving thread, or "none"
+          Bg,          \* name of the background serving thread (BgServingThread: serve(0), sleep), or "none"
+          Pool,        \* names of threads that do nothing but serve the connection in a blocking loop - `while True: serve(None)` -
+                       \* as the threads of Connection.serve_threaded() do (its docstring warns of exactly the stall of C14)
           Handoff      \* TRUE: the repaired serve() (replies in transit are counted, a waiter re-checks its result before it
                        \* polls, waiters are notified again after the dispatch); FALSE: the pinned serve()
 
 None == "none"
-Threads == Clients \cup (IF Bg = None THEN {} ELSE {Bg})
+NoPool == {}
+Threads == Clients \cup (IF Bg = None THEN {} ELSE {Bg}) \cup Pool
 AllReqs == UNION {{Reqs[t][i] : i \in 1..Len(Reqs[t])} : t \in Clients}
 
 VARIABLES pc,          \* pc[t]
@@ -80,6 +83,8 @@ Init == /\ pc = [t \in Threads |-> "start"]
         /\ transit = 0
 
 IsBg(t) == t = Bg
+IsPool(t) == t \in Pool
+ServesOnly(t) == IsBg(t) \/ IsPool(t)
 
 \* ------------------------------------------------------------------ issuing a request
 \* the thread begins its next request (or finishes).  No shared-object operation separates
@@ -105,7 +110,7 @@ Begin(t) ==
                  /\ UNCHANGED <<sendlock, wr>>
 
 Start(t) == /\ pc[t] = "start"
-            /\ IF IsBg(t)
+            /\ IF ServesOnly(t)
                THEN pc' = [pc EXCEPT ![t] = "s_cond_in"] /\ UNCHANGED <<nxt, cur, wr, sendq, sendlock, cb>>
                ELSE Begin(t)
             /\ UNCHANGED <<sent, replied, chan, recvlock, condlock, waiters, notified, data, ready, value,
@@ -138,7 +143,7 @@ WFinal(t) == /\ pc[t] = "w_final"
              /\ woke' = [woke EXCEPT ![t] = FALSE] /\ UNCHANGED transit
 
 \* serve() has returned to its caller
-Return(t) == IF IsBg(t) THEN "b_sleep" ELSE "w_check"
+Return(t) == IF IsBg(t) THEN "b_sleep" ELSE IF IsPool(t) THEN "s_cond_in" ELSE "w_check"
 AfterDispatch(t) == IF Handoff THEN "d_ncond_in" ELSE Return(t)
 
 \* ------------------------------------------------------------------ serve
@@ -156,7 +161,7 @@ CondOut(t, from, to) == /\ pc[t] = from
                         /\ pc' = [pc EXCEPT ![t] = to]
                         /\ UNCHANGED <<U1, chan, recvlock, waiters, notified, data, receivedBy, stalls, expired, woke>>
 
-SCondIn(t) == CondIn(t, "s_cond_in", IF Handoff /\ ~IsBg(t) THEN "s_precheck" ELSE "s_trylock")
+SCondIn(t) == CondIn(t, "s_cond_in", IF Handoff /\ ~ServesOnly(t) THEN "s_precheck" ELSE "s_trylock")
 \* repaired serve(until=...): under the condition's lock, first look whether the result is there already (the check the caller
 \* made before calling serve() may be stale; a publication after THIS check is followed by a notification we will get)
 SPrecheck(t) == /\ pc[t] = "s_precheck"
@@ -194,7 +199,7 @@ SBlocked(t) == /\ pc[t] = "s_blocked"
 
 SReacq(t) == CondIn(t, "s_reacq", "s_cond_out2")
 SCondOut2(t) == CondOut(t, "s_cond_out2", Return(t))
-SCondOut1(t) == CondOut(t, "s_cond_out1", IF Handoff /\ ~IsBg(t) THEN "s_recheck" ELSE "s_poll")
+SCondOut1(t) == CondOut(t, "s_cond_out1", IF Handoff /\ ~ServesOnly(t) THEN "s_recheck" ELSE "s_poll")
 \* repaired serve(), called from AsyncResult.wait with until = "my result is there": holding the receive lock, look again
 \* before going to sleep on the transport (whoever published it did so before the count of replies in transit went down)
 SRecheck(t) == /\ pc[t] = "s_recheck"
@@ -300,11 +305,13 @@ Blocked(t) == \/ pc[t] = "done"
               \/ pc[t] \in {"s_cond_in", "s_reacq", "s_ncond_in", "d_ncond_in"} /\ condlock # None
               \/ pc[t] = "s_blocked" /\ t \notin notified /\ ~IsBg(t) /\ t \notin expired
               \/ pc[t] = "s_poll" /\ chan = <<>> /\ ~IsBg(t) /\ t \notin expired
+\* a pool thread with nothing to do: asleep on the transport or on the condition (it has no time-out)
+PoolIdle == \A p \in Pool : Blocked(p)
 
 \* nothing happens any more unless the peer sends something or a timeout runs out
 BgIdle == IF Bg = None THEN TRUE ELSE pc[Bg] = "b_sleep"
 Quiescent == /\ \A t \in Clients : Blocked(t)
-             /\ BgIdle
+             /\ BgIdle /\ PoolIdle
 NothingToCome == chan = <<>> /\ sent = replied /\ sendq = <<>>
 
 \* Deliberate deviation of the code, named: waiters that are blocked although nothing is outstanding any more are
@@ -333,7 +340,7 @@ TimeoutWake(t) == /\ t \in expired
                                  ready, value, dispatched, receivedBy, stalls, transit>>
 
 AllDone == \A t \in Clients : pc[t] = "done"
-Finished == AllDone /\ BgIdle /\ UNCHANGED vars
+Finished == AllDone /\ BgIdle /\ PoolIdle /\ UNCHANGED vars
 
 Next == \/ \E t \in Threads : Step(t)
         \/ \E r \in AllReqs : PeerReply(r)
